@@ -298,10 +298,23 @@ SupportInfo(P, mask) ==
       (* Hall's condition on every run i..j of consecutive basis functions *)
       determined |-> \A i \in 1..n : \A j \in i..n : between(2 * i, 2 * (j + k)) >= j - i + 1,
       (* every cell of the mask holds a datum (on its closed extent) *)
-      cells |-> \A c \in k..(M - k) : between(2 * c - 1, 2 * c + 3) >= 1]
+      cells |-> \A c \in k..(M - k) : between(2 * c - 1, 2 * c + 3) >= 1,
+      (* the cells of the mask (by the rank of their left knot) that hold no datum at all: the gaps *)
+      empty |-> {c \in k..(M - k) : between(2 * c - 1, 2 * c + 3) = 0}]
 Touched(P, mask) == SupportInfo(P, mask).touched
 Determined(P, mask) == SupportInfo(P, mask).determined
 TotalData(P) == ISum(P.pc)
+
+(* Which breakpoints a -1 may drop.  "Reported through the breakpoint mask": while some basis function *)
+(* sees no datum the report is about the gap - only good interior breakpoints within max(1, nord div 2) *)
+(* knots of a cell without data (its two bounding knots included) may go; a breakpoint the data of THIS *)
+(* call fully support, away from every gap, may not.  When every basis function sees data but they are  *)
+(* too few to determine all coefficients there need not be a gap, and any interior breakpoint may go.   *)
+DropMargin(P) == IMax(1, P.nord \div 2)
+NearGap(P, mask, si) == {g \in mask \cap Interior(P) :
+                          \E c \in si.empty : RankIn(mask, g) \in (c - DropMargin(P))..(c + 1 + DropMargin(P))}
+Droppable(P, mask) == LET si == SupportInfo(P, mask) IN
+                      IF si.touched THEN mask \cap Interior(P) ELSE NearGap(P, mask, si)
 
 (* the three classes of the statement *)
 WellSupported(P, mask) == LET si == SupportInfo(P, mask) IN si.determined /\ si.cells   \* status 0 is demanded
@@ -358,7 +371,7 @@ TooFewKnots == Cardinality(bkmask) < 2 * prob.nord
 FitOK == /\ CanFit /\ ~TooFewKnots /\ ~Unsupported(prob, bkmask)
          /\ status' = 0 /\ nfits' = nfits + 1 /\ UNCHANGED <<prob, bkmask, phase>>
 CanDrop == CanFit /\ ~TooFewKnots /\ ~WellSupported(prob, bkmask)
-DropTo(m2) == /\ m2 \subseteq bkmask /\ m2 # bkmask /\ (bkmask \ m2) \subseteq Interior(prob)
+DropTo(m2) == /\ m2 \subseteq bkmask /\ m2 # bkmask /\ (bkmask \ m2) \subseteq Droppable(prob, bkmask)
               /\ status' = -1 /\ bkmask' = m2 /\ nfits' = nfits + 1 /\ UNCHANGED <<prob, phase>>
 FitDrop(m2) == CanDrop /\ DropTo(m2)
 FitFail == /\ CanFit /\ (TooFewKnots \/ ~WellSupported(prob, bkmask))
@@ -382,21 +395,30 @@ FitGiveUp(st, m2) == /\ CanFit /\ ~TooFewKnots /\ WellSupported(prob, bkmask) /\
                      /\ m2 \subseteq bkmask /\ (bkmask \ m2) \subseteq Interior(prob) /\ ((st = -1) <=> (m2 # bkmask))
                      /\ status' = st /\ bkmask' = m2 /\ nfits' = nfits + 1 /\ UNCHANGED <<prob, phase>>
 
+(* Not part of MNext: the caller presents other data (other weights) to the SAME object.  The mask  *)
+(* stays as it is, the fit count restarts from the breakpoints already dropped (so that FitsBounded   *)
+(* keeps its meaning) and the next fit is judged against the support of the new data.                 *)
+NewData(pc2, more) == /\ phase = "fitting" /\ Len(pc2) = Len(prob.pc)
+                      /\ prob' = [prob EXCEPT !.pc = pc2, !.maxfits = Cardinality(AllKnots(prob) \ bkmask) + more]
+                      /\ status' = NoFit /\ nfits' = Cardinality(AllKnots(prob) \ bkmask)
+                      /\ UNCHANGED <<bkmask, phase>>
+
 MNext == \/ FitOK
-         \/ CanDrop /\ \E D \in (SUBSET (bkmask \cap Interior(prob))) \ {{}} : DropTo(bkmask \ D)
+         \/ CanDrop /\ \E D \in (SUBSET Droppable(prob, bkmask)) \ {{}} : DropTo(bkmask \ D)
          \/ FitFail \/ Return \/ Refuse
 
 (* what a fit from the current state may answer, as data (used by replay): the admissible statuses *)
 (* and the knots a -1 may drop                                                                      *)
 FitClass(P, mask) ==
   LET few == Cardinality(mask) < 2 * P.nord
-      si == IF few THEN [touched |-> FALSE, determined |-> FALSE, cells |-> FALSE] ELSE SupportInfo(P, mask)
+      si == IF few THEN [touched |-> FALSE, determined |-> FALSE, cells |-> FALSE, empty |-> {}] ELSE SupportInfo(P, mask)
       ws == si.determined /\ si.cells
+      dr == IF few THEN {} ELSE IF si.touched THEN mask \cap Interior(P) ELSE NearGap(P, mask, si)
   IN [allowed |-> (IF ~few /\ si.touched THEN {0} ELSE {})
                   \cup (IF few THEN {-2}
                         ELSE IF ws THEN {}
-                        ELSE (IF mask \cap Interior(P) # {} THEN {-1} ELSE {}) \cup {-2}),
-      droppable |-> mask \cap Interior(P),
+                        ELSE (IF dr # {} THEN {-1} ELSE {}) \cup {-2}),
+      droppable |-> dr,
       determined |-> si.determined]
 
 (* ---- named deviation (what pydl does today) ---- *)
